@@ -163,7 +163,7 @@ RULES = {
            "validated against the pristine signature in every case). Non-trivial: every case; distinct by packet type, victim, forgery and key seed.",
     "C06": "real dkg.Process instances (real bolt dkg.db each) on an in-memory DKGClient bus. first DKG: scheme in 5, n in 1..7 (n=1 must be refused cleanly), t in [n/2+1,n], drawn permutation of the participant list handed to the leader, drawn leader, "
            "beacon period in {1,3,30} s. reshare: on top of a completed epoch written by the harness (its own polynomial): n0 in 2..6, 0..n0-t0 leavers, 0..3 joiners, new threshold in range, every list permuted, leader among the remainers. "
-           "Delivery policy per case: per-message delay up to 5/40/150 ms (reordering), duplicates, one slow node (all its traffic +100/400/900 ms), transient failure of gossip sends (retried by the sender); message loss of DKG bundles is not generated "
+           "Delivery policy per case: per-message delay up to 5/40/150 ms (reordering), duplicates, one slow node (all its traffic +100/400/900 ms; first DKG with n-t >= 1 also: its own bundles 5 s late with 2 s phases, so that it misses the deal phase and the others complete without it), transient failure of gossip sends (retried by the sender); message loss of DKG bundles is not generated "
            "(outside the quantifier). Oracle over all finishers: field-wise equal groups + equal hash, threshold as proposed, share index = own entry in the group = rank of the public key (independent of listing order), g^share on the public polynomial "
            "(harness arithmetic), 6 random t-subsets recover a signature that verifies under the group key and t-1 do not, epoch 1: genesis seed = hash of the first group; reshare: same public key and chain hash, leavers keep their record; "
            "positive control: every member finishes. Non-trivial: n>=3 with a non-identity permutation or a perturbing delivery policy (first DKG); every reshare. Distinct by full case descriptor.",
